@@ -16,7 +16,10 @@ vars == <<ctx, req>>
 
 Names == <<"a", "b", "c", "n", "zz">>
 Contexts == {"root", "prop", "item", "def", "defitem", "allOfReqOnly", "allOfSplit", "allOfRef", "anyOf",
-             "mapprop", "mappropitem", "allOfNested"}
+             "mapprop", "mappropitem", "allOfNested", "addltyped", "addltrue", "addltrueitem", "allOfRefCross"}
+\* "allOfRefCross": the $ref branch lists in ITS `required` names that only the other branch declares
+\* "addltyped" / "addltrue" / "addltrueitem": the object also collects additional properties (typed values, `true`,
+\* and `true` in a definition used as array items): the required check must stay next to the AdditionalProperties field
 \* the contexts with their own property set: `required` ranges over the subsets of three names there
 SmallCtx == {"mapprop", "mappropitem", "allOfNested"}
 
@@ -30,6 +33,9 @@ PropsO == << [k |-> "a", s |-> Int_],
 Obj(props, r) == ("type" :> <<"object">>) @@ ("properties" :> props)
                  @@ (IF r = <<>> THEN <<>> ELSE "required" :> r)
 O(r) == Obj(PropsO, r)
+OA(r, addl) == O(r) @@ ("additionalProperties" :> addl)
+ATyped == [k |-> "s", s |-> [type |-> <<"string">>]]
+ATrue  == [k |-> "b", b |-> TRUE]
 
 \* inner documents: a, b in {absent, 4, null}; c in {absent, 8}; n in {absent, {}, {p:4}}; zz in {absent, 4}
 Choice == [a : {"abs", "val", "null"}, b : {"abs", "val", "null"}, c : {"abs", "val"},
@@ -93,6 +99,17 @@ Unit(c, r) ==
                       schema |-> xprop([allOf |-> <<RefN, Obj(SubSeq(PropsO, 3, 4), Sub(r, {"c", "n", "zz"}))>>]),
                       defs |-> <<[k |-> "N", s |-> Obj(SubSeq(PropsO, 1, 2), Sub(r, {"a", "b"}))]>>,
                       docs |-> docsX(Wrap)]
+    [] c = "addltyped" -> [prop |-> "C04", ctx |-> c, schema |-> xprop(OA(r, ATyped)), defs |-> <<>>,
+                      docs |-> docsX(Wrap) \o docsX(LAMBDA o : Wrap(JObj(o.o \o <<KV("extra", JStr(<<"a">>))>>)))]
+    [] c = "addltrue" -> [prop |-> "C04", ctx |-> c, schema |-> xprop(OA(r, ATrue)), defs |-> <<>>,
+                      docs |-> docsX(Wrap) \o docsX(LAMBDA o : Wrap(JObj(o.o \o <<KV("extra", JStr(<<"a">>))>>)))]
+    [] c = "addltrueitem" -> [prop |-> "C04", ctx |-> c, schema |-> xprop(("type" :> <<"array">>) @@ ("items" :> RefN)),
+                      defs |-> <<[k |-> "N", s |-> OA(r, ATrue)]>>,
+                      docs |-> docsX(LAMBDA o : Wrap(JArr(<<o>>)))]
+    [] c = "allOfRefCross" -> [prop |-> "C04", ctx |-> c,
+                      schema |-> xprop([allOf |-> <<RefN, Obj(SubSeq(PropsO, 3, 4), <<>>)>>]),
+                      defs |-> <<[k |-> "N", s |-> Obj(SubSeq(PropsO, 1, 2), r)]>>,
+                      docs |-> docsX(Wrap)]
     [] c = "mapprop" -> [prop |-> "C04", ctx |-> c, schema |-> OM(r), defs |-> <<>>, docs |-> MapDocs]
     [] c = "mappropitem" -> [prop |-> "C04", ctx |-> c, schema |-> xprop(("type" :> <<"array">>) @@ ("items" :> OM(r))), defs |-> <<>>,
                       docs |-> [i \in DOMAIN MapDocs |-> Wrap(JArr(<<MapDocs[i]>>))]]
@@ -125,9 +142,13 @@ ImplAccepts(unit, d, D) ==
          IF "DeclaredArrayElemUnvalidated" \in D
          THEN \A i \in DOMAIN x.a : TypedOnly(env, O(r), x.a[i], D)
          ELSE \A i \in DOMAIN x.a : ImplStruct(env, O(r), x.a[i], D)
-    [] unit.ctx \in {"allOfReqOnly", "allOfSplit", "allOfRef"} ->
+    [] unit.ctx \in {"allOfReqOnly", "allOfSplit", "allOfRef", "allOfRefCross"} ->
          ImplAllOf(env, unit.schema.properties[1].s.allOf, x, D)
     [] unit.ctx = "anyOf" -> ImplAnyOf(env, unit.schema.properties[1].s.anyOf, x, D)
+    [] unit.ctx = "addltyped" -> ImplStruct(env, OA(r, ATyped), x, D)
+                                 /\ \A k \in ObjKeys(x) \ PropNames(O(r)) : ObjVal(x, k).t \in {"str", "null"}   \* mapstructure into map[string]string
+    [] unit.ctx = "addltrue" -> ImplStruct(env, OA(r, ATrue), x, D)
+    [] unit.ctx = "addltrueitem" -> \A i \in DOMAIN x.a : ImplStruct(env, OA(r, ATrue), x.a[i], D)
     [] unit.ctx = "mapprop" -> ImplStruct(env, OM(r), x, D)
     [] unit.ctx = "mappropitem" -> \A i \in DOMAIN x.a : ImplStruct(env, OM(r), x.a[i], D)
     [] unit.ctx = "allOfNested" -> ImplAllOf(env, unit.schema.properties[1].s.allOf, x, D)
